@@ -14,6 +14,10 @@ pub assume_specification<T, P: FnOnce(&T) -> bool> [Option::<T>::filter] (o: Opt
     ensures match o { Some(v) => (r == Some(v) && p.ensures((&v,), true)) || (r.is_none() && p.ensures((&v,), false)), None => r.is_none() };
 pub assume_specification<T> [bool::then_some] (b: bool, t: T) -> (r: Option<T>)
     ensures r == (if b { Some(t) } else { None::<T> });
+pub assume_specification<T, const N: usize> [<[T]>::first_chunk::<N>] (s: &[T]) -> (r: Option<&[T; N]>)
+    ensures s@.len() >= N ==> (r matches Some(a) && a@ == s@.subrange(0, N as int)), s@.len() < N ==> r is None;
+pub assume_specification<'a, T: Copy> [Option::<&'a T>::copied] (o: Option<&'a T>) -> (r: Option<T>)
+    ensures r == (match o { Some(x) => Some(*x), None => None::<T> });
 pub assume_specification<T: PartialEq> [<[T]>::contains] (s: &[T], x: &T) -> (r: bool)
     ensures r == s@.contains(*x);
 pub assume_specification<T, E> [Option::<core::result::Result<T, E>>::transpose] (o: Option<core::result::Result<T, E>>) -> (r: core::result::Result<Option<T>, E>)
